@@ -1,5 +1,4 @@
-import ParryModel.Field
-import ParryModel.C14.Model
+import ParryModel.C14.Lemmas
 /-!
 # C14 property theorems: persistent contact manifolds, for every linearly ordered field.
 
@@ -76,5 +75,294 @@ theorem tuc3_true_sound (pos12 : Iso3 K) (m : Manifold3 K) (thr dsq : K)
   push Not at h2
   refine ⟨?_, rfl, rfl, h2, tucLoop3_sound sq pos12 m.n1 dsq hn m.points h⟩
   intro he; simp [he] at h1
+
+/-! ## (b) the closed-form generators -/
+
+/-- The property's per-contact clause at pose `pos12`: `dist = (pos12·local_p2 − local_p1)·local_n1`, and the
+two witnesses lie in the given sets (`S1` in the frame of shape 1, `S2` in the frame of shape 2). -/
+def GoodContact3 (pos12 : Iso3 K) (n1 : V3 K) (S1 S2 : V3 K → Prop) (c : Contact3 K) : Prop :=
+  letI := fieldNum K sq
+  c.dist = ((pos12.act c.p2).sub c.p1).dot n1 ∧ S1 c.p1 ∧ S2 c.p2
+
+/-- The property's per-manifold clause: unit normals, exactly opposite (`pos12·n2 = −n1`, which is stronger
+than the 1° warm-start tolerance), and every contact good. -/
+def GoodManifold3 (pos12 : Iso3 K) (S1 S2 : V3 K → Prop) (m : Manifold3 K) : Prop :=
+  letI := fieldNum K sq
+  m.n1.dot m.n1 = 1 ∧ m.n2.dot m.n2 = 1 ∧ pos12.rot m.n2 = m.n1.neg ∧
+    ∀ c ∈ m.points, GoodContact3 sq pos12 m.n1 S1 S2 c
+
+/-- the surface of the ball of radius `r` (a subset of `Ball.Mem3`) -/
+def Sphere3 (r : K) (p : V3 K) : Prop := letI := fieldNum K sq; p.normSq = r * r
+
+/-- **C14 (b), ball/ball.**  With `d = |t| − r1 − r2` (the signed distance of the two balls): no contact iff
+`¬ d < prediction`; otherwise exactly one contact, of distance `d`, and the manifold is good with witnesses on
+the two spheres.  (`m.points.length ≤ 1` is what the dispatcher guarantees: the manifold starts empty and only
+this generator writes to it; stale extra points of a foreign manifold are kept by the code.) -/
+theorem ballBall3_spec (hs : LawfulSqrt sq) (pos12 : Iso3 K) (r1 r2 pred : K) (m : Manifold3 K)
+    (hq : UnitQ pos12) (hm : m.points.length ≤ 1) :
+    letI := fieldNum K sq
+    let m' := ballBall3 pos12 r1 r2 pred m
+    let d := pos12.t.norm - r1 - r2
+    (¬ d < pred → m'.points = []) ∧
+    (d < pred → (∃ c, m'.points = [c] ∧ c.dist = d) ∧
+      GoodManifold3 sq pos12 (Sphere3 sq r1) (Sphere3 sq r2) m') := by
+  intro m' d
+  constructor
+  · intro h
+    simp only [m', ballBall3, d] at h ⊢
+    rw [if_neg h]; rfl
+  · intro h
+    have hpts : ∀ c : Contact3 K, setFirst c m.points = [c] := by
+      intro c
+      match hmp : m.points with
+      | [] => rfl
+      | [_] => rfl
+      | _ :: _ :: _ => rw [hmp] at hm; simp at hm
+    simp only [m', ballBall3, d] at h ⊢
+    rw [if_pos h]
+    simp only [hpts]
+    by_cases hz : @V3.norm K (fieldNum K sq) pos12.t = 0
+    · -- coincident centres: `Vector::y()`
+      have ht := norm_zero3 sq hs pos12.t hz
+      have hneq : @neq K (fieldNum K sq) (@V3.norm K (fieldNum K sq) pos12.t) 0 = true := by
+        simp [neq, hz]
+      simp only [hneq, Bool.not_true, Bool.false_eq_true, if_false]
+      have hn : @V3.dot K (fieldNum K sq) ⟨0, 1, 0⟩ ⟨0, 1, 0⟩ = 1 := by simp [V3.dot]
+      obtain ⟨b1, b2, b3, b3', b4, b5⟩ := ball_contact3 sq pos12 hq ⟨0, 1, 0⟩ r1 r2 hn
+      refine ⟨⟨_, rfl, ?_⟩, hn, b1, b2, ?_⟩
+      · rw [hz]
+      · intro c hc
+        simp only [List.mem_singleton] at hc
+        subst hc
+        refine ⟨?_, b4, b5⟩
+        simp only []
+        rw [b3, b3', hz, ht]; simp [V3.dot]
+    · have hneq : @neq K (fieldNum K sq) (@V3.norm K (fieldNum K sq) pos12.t) 0 = false := by
+        simp only [neq, Bool.and_eq_false_imp, decide_eq_true_eq, decide_eq_false_iff_not]
+        intro h1 h2; exact hz (le_antisymm h1 h2)
+      simp only [hneq, Bool.not_false, if_true]
+      obtain ⟨hn, hd⟩ := normalize3 sq hs pos12.t hz
+      obtain ⟨b1, b2, b3, b3', b4, b5⟩ := ball_contact3 sq pos12 hq _ r1 r2 hn
+      refine ⟨⟨_, rfl, rfl⟩, hn, b1, b2, ?_⟩
+      intro c hc
+      simp only [List.mem_singleton] at hc
+      subst hc
+      refine ⟨?_, b4, b5⟩
+      simp only []
+      rw [b3, b3', hd]
+
+/-- **C14 (b), convex/ball, unflipped.**  `proj` is any projection function (the first shape is abstract). -/
+theorem convexBall3_spec (hs : LawfulSqrt sq) (proj : V3 K → Bool × V3 K) (pos12 : Iso3 K) (r2 pred : K)
+    (m : Manifold3 K) (hq : UnitQ pos12) :
+    letI := fieldNum K sq
+    let m' := convexBall3 proj pos12 r2 pred false m
+    let pr := proj pos12.t
+    let d := (if pr.1 then -((pos12.t.sub pr.2).norm) else (pos12.t.sub pr.2).norm) - r2
+    (¬ d ≤ pred → m'.points = []) ∧
+    (d ≤ pred → (∃ c, m'.points = [c] ∧ c.p1 = pr.2 ∧ c.dist = d) ∧
+      GoodManifold3 sq pos12 (fun p => p = pr.2) (Sphere3 sq r2) m') := by
+  intro m' pr d
+  obtain ⟨hn, hdot, he⟩ := contactNormal3_spec sq hs (@V3.sub K (fieldNum K sq) pos12.t pr.2) pos12.t
+  simp only [m', convexBall3, convexBallOut3]
+  generalize hnd : @contactNormal3 K (fieldNum K sq) (@V3.sub K (fieldNum K sq) pos12.t (proj pos12.t).2) pos12.t = nd at *
+  obtain ⟨n, e⟩ := nd
+  simp only [pr] at hn hdot he
+  simp only [] at hn hdot he ⊢
+  by_cases hin : pr.1 = true
+  · -- inside: normal and distance are negated
+    have hin' : (proj pos12.t).1 = true := hin
+    have hnn : @V3.dot K (fieldNum K sq) (@V3.neg K (fieldNum K sq) n) (@V3.neg K (fieldNum K sq) n) = 1 := by
+      simp only [V3.dot, V3.neg] at hn ⊢; linear_combination hn
+    obtain ⟨b1, b2, b3, _, _, b5⟩ := ball_contact3 sq pos12 hq (@V3.neg K (fieldNum K sq) n) 0 r2 hnn
+    have hd : d = -e - r2 := by simp only [d, hin, if_true, he]; rfl
+    simp only [hin', if_true, Bool.false_eq_true, if_false]
+    constructor
+    · intro h; rw [hd] at h; rw [if_neg (by linarith)]; rfl
+    · intro h; rw [hd] at h; rw [if_pos (by linarith)]
+      refine ⟨⟨_, rfl, rfl, by simp [Contact3.flipped, hd]⟩, hnn, b1, b2, ?_⟩
+      intro c hc
+      simp only [List.mem_singleton] at hc
+      subst hc
+      refine ⟨?_, rfl, b5⟩
+      simp only [Contact3.flipped, Bool.not_false, if_true]
+      rw [b3]
+      simp only [V3.dot, V3.neg] at hdot ⊢
+      linear_combination hdot
+  · have hin' : (proj pos12.t).1 = false := by simpa using hin
+    obtain ⟨b1, b2, b3, _, _, b5⟩ := ball_contact3 sq pos12 hq n 0 r2 hn
+    have hd : d = e - r2 := by simp only [d, hin, he]; rfl
+    simp only [hin', Bool.false_eq_true, if_false]
+    constructor
+    · intro h; rw [hd] at h; rw [if_neg (by linarith)]; rfl
+    · intro h; rw [hd] at h; rw [if_pos (by linarith)]
+      refine ⟨⟨_, rfl, rfl, by simp [Contact3.flipped, hd]⟩, hn, b1, b2, ?_⟩
+      intro c hc
+      simp only [List.mem_singleton] at hc
+      subst hc
+      refine ⟨?_, rfl, b5⟩
+      simp only [Contact3.flipped, Bool.not_false, if_true]
+      rw [b3, hdot]
+
+/-- swapping the roles of the two shapes (`TrackedContact::flipped` + the normal swap of the `flipped` arms) -/
+def Contact3.swap (c : Contact3 K) : Contact3 K := ⟨c.p2, c.p1, c.dist⟩
+def Manifold3.swap (m : Manifold3 K) : Manifold3 K := ⟨m.points.map Contact3.swap, m.n2, m.n1⟩
+
+
+/-- **flip**: a manifold good for `(shape A, shape B)` at pose `pos12⁻¹` is, with the roles swapped, good for
+`(shape B, shape A)` at pose `pos12`. -/
+theorem good_swap3 (pos12 : Iso3 K) (hq : UnitQ pos12) (S1 S2 : V3 K → Prop) (m : Manifold3 K)
+    (h : letI := fieldNum K sq; GoodManifold3 sq pos12.inverse S1 S2 m) :
+    GoodManifold3 sq pos12 S2 S1 m.swap := by
+  obtain ⟨u1, u2, opp, hc⟩ := h
+  rw [inverse_rot3] at opp
+  have opp' : @Iso3.rot K (fieldNum K sq) pos12 m.n1 = @V3.neg K (fieldNum K sq) m.n2 := by
+    have := congrArg (@Iso3.rot K (fieldNum K sq) pos12) opp
+    rw [rot_invRot3 sq pos12 _ hq, rot_neg3] at this
+    rw [this]; apply V3.ext' <;> simp [V3.neg]
+  refine ⟨u2, u1, opp', ?_⟩
+  intro c hcm
+  simp only [Manifold3.swap, List.mem_map] at hcm
+  obtain ⟨c0, hc0, rfl⟩ := hcm
+  obtain ⟨id0, w1, w2⟩ := hc c0 hc0
+  refine ⟨?_, w2, w1⟩
+  simp only [Contact3.swap, Manifold3.swap]
+  rw [id0, act_sub_dot3 sq pos12 hq, inverse_act3]
+  have : @Iso3.invRot K (fieldNum K sq) pos12 m.n2 = @V3.neg K (fieldNum K sq) m.n1 := opp
+  rw [this]
+  simp only [V3.dot, V3.sub, V3.neg]
+  ring
+
+
+private theorem convexBall3_flip (proj : V3 K → Bool × V3 K) (P : Iso3 K) (r pred : K) (m : Manifold3 K) :
+    letI := fieldNum K sq
+    ((convexBall3 proj P r pred true m).points = [] ∧ (convexBall3 proj P r pred false m).points = []) ∨
+    convexBall3 proj P r pred true m = (convexBall3 proj P r pred false m).swap := by
+  simp only [convexBall3]
+  generalize (if (proj P.t).1 = true then _ else _ : V3 K × K) = nd
+  simp only [convexBallOut3, ↓reduceIte, Bool.false_eq_true]
+  by_cases h : nd.2 ≤ r + pred
+  · right; simp [h, Manifold3.swap, Contact3.swap, Contact3.flipped]
+  · left; simp [h, Manifold3.clear]
+
+private theorem halfspacePfm3_flip (feat : V3 K → List (V3 K)) (P : Iso3 K) (n : V3 K) (br pred : K) :
+    letI := fieldNum K sq
+    halfspacePfm3 feat P n br pred true = (halfspacePfm3 feat P n br pred false).swap := by
+  simp only [halfspacePfm3, Manifold3.swap, Bool.false_eq_true, if_false, if_true, List.map_filterMap]
+  congr 1
+  apply List.filterMap_congr
+  intro v _
+  split_ifs <;> simp [Contact3.swap, Contact3.flipped]
+
+/-- the boundary plane of the half-space `{p | n·p ≤ 0}` -/
+def Plane3 (n : V3 K) (p : V3 K) : Prop := letI := fieldNum K sq; n.dot p = 0
+/-- within distance exactly `br` of one of the feature vertices `vs` (so inside the shape rounded by `br`) -/
+def NearVertex3 (vs : List (V3 K)) (br : K) (p : V3 K) : Prop :=
+  letI := fieldNum K sq
+  ∃ v ∈ vs, (p.sub v).normSq = br * br
+
+/-- **C14 (b), half-space/pfm, unflipped**, for *any* polygonal feature map `feat`.  The manifold is good at
+`pos12` with `local_n1` = the half-space normal, every `local_p1` on the boundary plane, every `local_p2` at
+distance exactly `border_radius` from a vertex of the support feature; every kept contact has
+`dist ≤ prediction`, and every feature vertex within `prediction` (after the border radius) yields a contact. -/
+theorem halfspacePfm3_spec (feat : V3 K → List (V3 K)) (pos12 : Iso3 K) (n : V3 K) (br pred : K)
+    (hq : UnitQ pos12) (hn : letI := fieldNum K sq; n.dot n = 1) :
+    letI := fieldNum K sq
+    let m' := halfspacePfm3 feat pos12 n br pred false
+    let vs := feat (pos12.invRot n).neg
+    GoodManifold3 sq pos12 (Plane3 sq n) (NearVertex3 sq vs br) m' ∧ m'.n1 = n ∧
+    (∀ c ∈ m'.points, c.dist ≤ pred) ∧
+    (∀ v ∈ vs, (pos12.act v).dot n - br ≤ pred → ∃ c ∈ m'.points, c.dist = (pos12.act v).dot n - br) := by
+  intro m' vs
+  have hn12 : @V3.dot K (fieldNum K sq) (@Iso3.invRot K (fieldNum K sq) pos12 n) (@Iso3.invRot K (fieldNum K sq) pos12 n) = 1 := by
+    rw [invRot_dot3 sq pos12 n n hq]; exact hn
+  have hrot := rot_invRot3 sq pos12 n hq
+  simp only [m', vs, halfspacePfm3, Bool.false_eq_true, if_false]
+  refine ⟨⟨hn, ?_, ?_, ?_⟩, trivial, ?_, ?_⟩
+  · simp only [V3.dot, V3.neg] at hn12 ⊢; linear_combination hn12
+  · rw [rot_neg3, hrot]
+  · intro c hc
+    simp only [List.mem_filterMap] at hc
+    obtain ⟨v, hv, hcv⟩ := hc
+    split_ifs at hcv with hle
+    simp only [Option.some.injEq] at hcv
+    subst hcv
+    simp only [Contact3.flipped, Bool.not_false, if_true]
+    refine ⟨?_, ?_, v, hv, ?_⟩
+    · have : @Iso3.act K (fieldNum K sq) pos12 (@V3.sub K (fieldNum K sq) v (@V3.smul K (fieldNum K sq) (@Iso3.invRot K (fieldNum K sq) pos12 n) br))
+          = @V3.sub K (fieldNum K sq) (@Iso3.act K (fieldNum K sq) pos12 v) (@V3.smul K (fieldNum K sq) n br) := by
+        simp only [Iso3.act]; rw [rot_sub3, rot_smul3, hrot]
+        apply V3.ext' <;> simp only [V3.add, V3.sub] <;> ring
+      rw [this]
+      simp only [V3.dot, V3.sub, V3.smul] at hn ⊢
+      linear_combination (br - ((@Iso3.act K (fieldNum K sq) pos12 v).x * n.x + (@Iso3.act K (fieldNum K sq) pos12 v).y * n.y
+        + (@Iso3.act K (fieldNum K sq) pos12 v).z * n.z)) * hn
+    · simp only [Plane3, V3.dot, V3.sub, V3.smul] at hn ⊢
+      linear_combination (-((@Iso3.act K (fieldNum K sq) pos12 v).x * n.x + (@Iso3.act K (fieldNum K sq) pos12 v).y * n.y
+        + (@Iso3.act K (fieldNum K sq) pos12 v).z * n.z)) * hn
+    · simp only [V3.normSq, V3.dot, V3.sub, V3.smul] at hn12 ⊢
+      linear_combination (br * br) * hn12
+  · intro c hc
+    simp only [List.mem_filterMap] at hc
+    obtain ⟨v, _, hcv⟩ := hc
+    split_ifs at hcv with hle
+    simp only [Option.some.injEq] at hcv
+    subst hcv
+    simpa [Contact3.flipped] using hle
+  · intro v hv hle
+    refine ⟨_, List.mem_filterMap.mpr ⟨v, hv, by rw [if_pos hle]⟩, ?_⟩
+    simp [Contact3.flipped]
+
+
+/-- **C14 (b), convex/ball through `contact_manifold_convex_ball_shapes`, both argument orders.**  Either no
+contact, or the manifold is good at `pos12`; the ball's witness is on its sphere, the other witness is the
+projection `proj` of the ball centre (expressed in that shape's frame) — "on the shape" by the projection's
+own postcondition (C05; for a cuboid see `cuboidProject3_mem`). -/
+theorem convexBallShapes3_good (hs : LawfulSqrt sq) (proj : V3 K → Bool × V3 K) (ballFirst : Bool)
+    (pos12 : Iso3 K) (r pred : K) (m : Manifold3 K) (hq : UnitQ pos12) :
+    letI := fieldNum K sq
+    let m' := convexBallShapes3 proj ballFirst pos12 r pred m
+    m'.points = [] ∨
+      (if ballFirst then GoodManifold3 sq pos12 (Sphere3 sq r) (fun p => p = (proj pos12.inverse.t).2) m'
+       else GoodManifold3 sq pos12 (fun p => p = (proj pos12.t).2) (Sphere3 sq r) m') := by
+  intro m'
+  cases ballFirst with
+  | false =>
+    obtain ⟨h1, h2⟩ := convexBall3_spec sq hs proj pos12 r pred m hq
+    simp only [m', convexBallShapes3, Bool.false_eq_true, if_false] at *
+    by_cases hd : (if (proj pos12.t).1 = true then -(@V3.norm K (fieldNum K sq) (@V3.sub K (fieldNum K sq) pos12.t (proj pos12.t).2))
+        else @V3.norm K (fieldNum K sq) (@V3.sub K (fieldNum K sq) pos12.t (proj pos12.t).2)) - r ≤ pred
+    · exact Or.inr (h2 hd).2
+    · exact Or.inl (h1 hd)
+  | true =>
+    have hqi := unitQ_inverse sq pos12 hq
+    obtain ⟨h1, h2⟩ := convexBall3_spec sq hs proj (@Iso3.inverse K (fieldNum K sq) pos12) r pred m hqi
+    simp only [m', convexBallShapes3, if_true] at *
+    rcases convexBall3_flip sq proj (@Iso3.inverse K (fieldNum K sq) pos12) r pred m with hf | hf
+    · exact Or.inl hf.1
+    · rw [hf]
+      by_cases hd : (if (proj (@Iso3.inverse K (fieldNum K sq) pos12).t).1 = true then
+            -(@V3.norm K (fieldNum K sq) (@V3.sub K (fieldNum K sq) (@Iso3.inverse K (fieldNum K sq) pos12).t (proj (@Iso3.inverse K (fieldNum K sq) pos12).t).2))
+          else @V3.norm K (fieldNum K sq) (@V3.sub K (fieldNum K sq) (@Iso3.inverse K (fieldNum K sq) pos12).t (proj (@Iso3.inverse K (fieldNum K sq) pos12).t).2)) - r ≤ pred
+      · exact Or.inr (good_swap3 sq pos12 hq _ _ _ (h2 hd).2)
+      · left; simp [Manifold3.swap, h1 hd]
+
+/-- **C14 (b), half-space/pfm through the two half-space arms of `contact_manifold_convex_convex`, both
+argument orders**, for any polygonal feature map. -/
+theorem halfspaceDispatch3_good (feat : V3 K → List (V3 K)) (hsFirst : Bool) (pos12 : Iso3 K) (n : V3 K)
+    (br pred : K) (hq : UnitQ pos12) (hn : letI := fieldNum K sq; n.dot n = 1) :
+    letI := fieldNum K sq
+    let m' := halfspaceDispatch3 feat hsFirst pos12 n br pred
+    if hsFirst then GoodManifold3 sq pos12 (Plane3 sq n) (NearVertex3 sq (feat (pos12.invRot n).neg) br) m'
+    else GoodManifold3 sq pos12 (NearVertex3 sq (feat (pos12.inverse.invRot n).neg) br) (Plane3 sq n) m' := by
+  intro m'
+  cases hsFirst with
+  | true =>
+    simp only [m', halfspaceDispatch3, if_true]
+    exact (halfspacePfm3_spec sq feat pos12 n br pred hq hn).1
+  | false =>
+    simp only [m', halfspaceDispatch3, Bool.false_eq_true, if_false]
+    rw [halfspacePfm3_flip]
+    exact good_swap3 sq pos12 hq _ _ _
+      (halfspacePfm3_spec sq feat (@Iso3.inverse K (fieldNum K sq) pos12) n br pred (unitQ_inverse sq pos12 hq) hn).1
 
 end C14
